@@ -1,4 +1,5 @@
 import Amgcl.Proofs.CuthillMcKeeMain
+import Amgcl.Proofs.CuthillMcKeeIndep
 import Amgcl.Properties.C16
 import Amgcl.Properties.C17
 /-!
@@ -17,7 +18,8 @@ Subject: the loop-by-loop model `CMK.get` (`Model/CuthillMcKee.lean`) of `amgcl:
   of `0..n-1` in each of the forms used elsewhere (`isPermB`, list permutation of `List.range n`, `PermOn`, `IsPerm`).
 * `cmk_total` — the same as a statement about the outcomes; `cmk_fuel_indep` — every fuel `≥ n` (for the main loop and
   for the list walks) gives the same result: the fuelled loops are the unbounded loops of the code.
-* `cmk_first` — `perm[0] = 0`: the ordering starts with the initial node.
+* `cmk_first` — `perm[0] = 0`: the ordering starts with the initial node; `cmk_perm0_indep` — the result does not depend on
+  the incoming content of `perm`.
 * `cmk_empty_oob` — `n = 0`: the outcome is `oob` (the code writes `perm[0]` / reads `degree[0]` of empty vectors).
 * `skyline_cmk_spec` — `C16.skyline_spec` instantiated with the MODEL's Cuthill–McKee ordering (what the constructor of
   `skyline_lu` computes by default): no hypothesis on the ordering is left.
@@ -108,6 +110,16 @@ theorem cmk_fuel_indep (reverse : Bool) (A : CRS K) (perm0 : Array Nat) (hn : 1 
 
 example : CMK.getFuel false (⟨2, #[[(1, 1)], []]⟩ : CRS Nat) #[0, 0] 7 11 = CMK.get false ⟨2, #[[(1, 1)], []]⟩ #[0, 0] :=
   cmk_fuel_indep false _ _ (by decide) rfl (by decide) rfl 7 11 (by decide) (by decide)
+
+/-- **the result is a function of the pattern only**: it does not depend on the incoming content of `perm` (the code
+never reads `perm`, and every position is overwritten) -/
+theorem cmk_perm0_indep (reverse : Bool) (A : CRS K) (perm0 perm0' : Array Nat) (hn : 1 ≤ A.nrows)
+    (hsq : A.ncols = A.nrows) (hwf : A.WF) (hp : perm0.size = A.nrows) (hp' : perm0'.size = A.nrows) :
+    CMK.get reverse A perm0' = CMK.get reverse A perm0 :=
+  get_indep reverse A perm0 perm0' hn hsq hwf hp hp'
+
+example : CMK.get true (⟨2, #[[(1, 1)], []]⟩ : CRS Nat) #[7, 7] = CMK.get true (⟨2, #[[(1, 1)], []]⟩ : CRS Nat) #[0, 0] :=
+  cmk_perm0_indep true _ _ _ (by decide) rfl (by decide) rfl rfl
 
 /-- **`n = 0`**: whatever the caller passes as `perm`, the code accesses element 0 of an empty vector (`perm[0]` if
 `perm` is empty as it should be, otherwise `levelSet[0]`): outcome `oob` -/
